@@ -153,6 +153,7 @@ class LogConfig(object):
         self._added = False
         self._started = False
         self.pending = False
+        self._setup_acks_left = 0
         self.valid = False
         self.variables = []
         self.default_fetch_as = []
@@ -277,17 +278,23 @@ class LogConfig(object):
                 'Configuration has max number of blocks (%d)' % Log.MAX_BLOCKS
             )
         self.pending += 1
+        packets = []
         while not is_done:
             pk = CRTPPacket()
             pk.set_header(5, CHAN_SETTINGS)
             pk.data = (command, self.id)
             is_done, next_to_add = self._setup_log_elements(pk, next_to_add)
-
-            logger.debug('Adding/appending log block id {}'.format(self.id))
-            self.cf.send_packet(pk, expected_reply=(command, self.id))
+            packets.append((pk, command))
 
             # Use append if we have to add more variables
             command = self._cmd_append_block()
+
+        # The block is started when every one of these messages has been acknowledged, count them
+        # before the first one is sent (the first answer can arrive while the others are being sent)
+        self._setup_acks_left = len(packets)
+        for pk, command in packets:
+            logger.debug('Adding/appending log block id {}'.format(self.id))
+            self.cf.send_packet(pk, expected_reply=(command, self.id))
 
     def start(self):
         """Start the logging for this entry"""
@@ -550,10 +557,15 @@ class Log():
             id = payload[0]
             error_status = payload[1]
             block = self._find_block(id)
-            if cmd == CMD_CREATE_BLOCK or cmd == CMD_CREATE_BLOCK_V2:
+            if cmd in (CMD_CREATE_BLOCK, CMD_CREATE_BLOCK_V2, CMD_APPEND_BLOCK, CMD_APPEND_BLOCK_V2):
                 if (block is not None):
                     if error_status == 0 or error_status == errno.EEXIST:
-                        if not block.added:
+                        if not block.added and block._setup_acks_left > 1:
+                            # More create/append messages of this block are on their way, starting the
+                            # block now would make the Crazyflie log only the variables it has got so far
+                            block._setup_acks_left -= 1
+                        elif not block.added:
+                            block._setup_acks_left = 0
                             logger.debug('Have successfully added id=%d', id)
 
                             pk = CRTPPacket()
